@@ -95,7 +95,7 @@ func c20(r *Report) propMeta {
 	r.CondExists("assigned-time-test", su2, Cond{Op: "LSS", A: []string{"^param:now"}, B: []string{"^call:signaller.calculateAssignedTime"}, Want: false}, 1)
 	r.CondExists("status-change-test", su2, Cond{Op: "EQL", A: []string{"field:ValidatorPrice.SignalPriceStatus"}, B: []string{"field:SignalPrice.Status"}, Want: false}, 1)
 	r.Exists("deviation-test", su2, RetValEff(0, "^call:signaller.isDeviated", "field:FeedWithDeviation.DeviationBasisPoint", "field:ValidatorPrice.Price", "field:SignalPrice.Price"), 1)
-	r.CondCount("exactly-three-branches", su2, 3)
+	r.CondCount("exactly-three-branches", su2, 4) // 3 branches + the returned isDeviated(...) (decisionCount)
 	r.ArgHas("assigned-time-from-last-submission", su2, "signaller.calculateAssignedTime", 2, 1, "field:ValidatorPrice.Timestamp")
 	r.ArgHas("assigned-time-interval", su2, "signaller.calculateAssignedTime", 1, 1, "field:FeedWithDeviation.Interval")
 	id := "grogu/signaller.isDeviated"
